@@ -44,3 +44,18 @@ pub(crate) fn fail(test: &str, clause: &str, props: &[&str], function: &str, inp
     println!("REPLAY-FAIL {{\"test\":\"{}\",\"clause\":\"{}\",\"props\":[{}],\"function\":\"{}\",\"input\":\"{}\",\"observed\":\"{}\",\"required\":\"{}\"}}",
         esc(test), esc(clause), props.join(","), esc(function), esc(&input), esc(&observed), esc(&required));
 }
+
+/// run an oracle body; a panic inside the code under test is itself a finding (C20: no operation panics in the caller)
+#[allow(dead_code)]
+pub(crate) fn guarded(test: &str, f: impl FnOnce() + std::panic::UnwindSafe) {
+    let prev = std::panic::take_hook();
+    let msg = std::sync::Arc::new(std::sync::Mutex::new(String::new()));
+    let m2 = msg.clone();
+    std::panic::set_hook(Box::new(move |info| { *m2.lock().unwrap() = format!("{}", info); }));
+    let r = std::panic::catch_unwind(f);
+    std::panic::set_hook(prev);
+    if r.is_err() {
+        let m = msg.lock().unwrap().clone();
+        fail(test, "C20:panic-freedom", &["C20", "C13", "C14", "C11"], "(see panic location)", format!("oracle `{}` with VERIF_SEED", test), format!("panic: {}", m), "no operation panics".into());
+    }
+}
